@@ -180,6 +180,8 @@ def run_case(ctx, i, rng):
         f = os.path.join(d, "x.edf")
         with open(f, "w") as fh:
             fh.write(text)
+        f = common.input_variant(f, rng)       # (.edf / .edif / .edn, any letter case, or a single-file zip archive)
+        ctx.count("input_name:" + "".join(os.path.splitext(f)[1:]).lower() if not f.endswith(".zip") else "input_name:zip")
         try:
             n = sdn.parse(f)
         except Exception as ex:  # noqa: BLE001
